@@ -74,7 +74,9 @@ def run(tier):
             de = cfg.expr_operand(nei, tt["discr"])
             if de[0] == "discr" and de[1][0] == "call" and de[1][1] == "std::option::Option::take":
                 m, other = cfg.switch_edge_blocks(nei, sw)
-                if 0 in m and cfg.dominated_by_edge(nei, pcs[0], sw, m[0]):
+                # `match` lists both discriminants, `if let Some(..)` lists 1 and sends None to the otherwise edge
+                none_tg = m.get(0, other if 1 in m else None)
+                if none_tg is not None and cfg.dominated_by_edge(nei, pcs[0], sw, none_tg):
                     ok = True
         det = {"take_arg": cfg.expr_str(e), "parse_calls": pcs}
     rep.check(ok, "drain-before-parse", "next_event_impl", "next_event_impl no longer takes `current` first and parses only when "
